@@ -69,6 +69,15 @@ class Daemon:
         idle = [] if "--timeout" in self.extra_start else ["--timeout", "900"]
         r = common.run_cli(["--status-file", self.status_file, "start", "--log-file", self.log, *idle, *self.extra_start,
                             "--", *flags], cwd=self.root, env=self.env, timeout=120, module="mypy.dmypy")
+        if r["status"] != 0 and "Timed out waiting for daemon to start" in (r["err"] or ""):
+            # the client gives the daemon 5 s to write its status file; on an overloaded machine the daemon is
+            # merely late (and would otherwise stay behind unobserved): wait for it with a generous watchdog
+            end = time.monotonic() + 90
+            while time.monotonic() < end and not os.path.isfile(self.status_file):
+                time.sleep(0.1)
+            if os.path.isfile(self.status_file):
+                time.sleep(0.2)
+                r = dict(r, status=0, late=True)
         if r["status"] != 0:
             return {"ok": False, "start": r}
         try:
@@ -624,7 +633,10 @@ def stop_path(how: str, after_check: bool, cache_mode: str, base_cache: str | No
             out["action"] = inject(d, {"kind": "request", "sub": "malformed-stop", "req": "stop", "mut": {"set": {"bogus": 1}}})
         else:
             return {**out, "inconclusive": f"unknown stop path {how}"}
-        out["exited"] = d.wait_exit(60)
+        if how in ("crash-in-command", "malformed-stop") and not d.wait_exit(3) and "error" not in barrier(d.status_file):
+            out["exited"] = False  # the daemon answered the malformed request and keeps serving: nothing to judge
+        else:
+            out["exited"] = d.wait_exit(60)
         out["waitstatus"] = d.waitstatus
         out["how_exited"] = F.how_exited(d.waitstatus)
         sf = d.status_file_state()
